@@ -146,12 +146,12 @@ def check_case(ctx, case):
 def run_shard(ctx):
     acc = ctx.acc
     rng = ctx.rng("docs")
-    n = 7000 if ctx.quick() else 200000
+    n = 14000 if ctx.quick() else 300000
     for j in range(n):
         if ctx.out_of_time():
             acc.notes.append("time budget reached after %d docs" % j)
             break
-        text, feats = docgen.gen_doc(rng, hostile=0.6, eval_atoms=0.03)
+        text, feats = docgen.gen_doc(rng, hostile=0.6, eval_atoms=0.03, prolog=0.2)
         cfg = docgen.gen_cfg(rng)
         hostile = any(f.startswith("str.") for f in feats) or bool(cfg and any(k in cfg for k in ("bg", "ff", "style")))
         case = dict(input=text.encode("utf-8"), cfg=cfg, feats=feats, hostile=hostile)
